@@ -1,7 +1,7 @@
-\* one JobConfig, reconciler with two workers, restarts, one fault
+\* one JobConfig, reconciler with two workers, restarts, one fault (the restart-beyond-downtime goal has its own configuration c)
 CONSTANTS JCs = {1} Horizon = 10 Ids = {0,1,2} Windows <- W0 MaxMissed = 2 MaxDown = 3 MaxOps = 3 MaxLag = 2 MaxFaults = 1 MaxRestarts = 1 MaxTick = 4
-  Pols = {"Allow"} PreBoot = TRUE WithRecon = TRUE Workers = {1, 2} Relists = FALSE D = 45 K = 20 Goals = {1, 2, 4, 5, 6}
+  Pols = {"Allow"} PreBoot = TRUE WithRecon = TRUE Workers = {1, 2} Relists = FALSE D = 45 K = 20 Goals = {1, 4, 5, 6}
 SPECIFICATION GSpec
 VIEW GView
-INVARIANTS Goal1 Goal2 Goal4 Goal5 Goal6 Stop
+INVARIANTS Goal1 Goal4 Goal5 Goal6 Stop
 CHECK_DEADLOCK FALSE
